@@ -64,6 +64,10 @@ CLAIMS = {
     text="LiquidFiltersHtml defines escape, escape_once (look-ahead for the five entities), strip_html (four leftmost-shortest removal passes), url_encode (UTF-8 bytes outside [A-Za-z0-9._-] percent-escaped) and url_decode (+ as space, percent-decoding, strict UTF-8 validation) in TLA+; TLC enumerates the bounded input space and checks output safety, unescape-of-escape identity, escape_once idempotence and entity preservation, the url_encode charset, decode-of-encode identity and no-complete-tag-remains on every input; every case is replayed on the real filters and compared.",
     note="bounded: strings <= 4/5 (escape), <= 4 (url), <= 4/6 (strip_html) over the alphabets the property names, plus token-level sequences that reach the script/style/comment passes and near-entities.",
     tech=TECH_A, ref="DESIGN.md 7 C16"),
+ "C17": dict(
+    text="LiquidDates is an independent calendar (days-from-civil and back, weekday, day of year, %U/%W weeks, ISO week date) whose laws TLC checks on their own (round trip over +-2000 years, anchors, 4 January in week 1), the default printed form with its parser (round trip is an invariant) and an interpreter for strftime formats giving the documented meaning of every directive with flags, widths and fractional seconds (leading digits of the nanosecond field), unknown directives echoed, trailing % an error; TLC enumerates stamps x formats and the harness checks on the real code that the printed form parses back to the same date-time, that four other accepted spellings denote the same date-time, and that {{ ts | date: fmt }} equals the specification.",
+    note="bounded: the stamp and format sets listed in the evidence rule; composite directives with flags/widths and a few case-flag combinations are unspecified; two repaired defects (non-ASCII unknown directive panic, fraction digits padded on the wrong side).",
+    tech=TECH_A, ref="DESIGN.md 7 C17"),
  "C18": dict(
     text="TLC explores every operation sequence of the explicit TLA+ specification LiquidRuntime up to the stated length from all 9 base maps, checks the declarative scope meaning against the delegation-chain form in every state, and every explored sequence is replayed on the real StackFrame/SandboxedStackFrame/GlobalFrame types with all lookups, roots, counters and register ownership compared after every operation.",
     note="bounded: length 3 (quick) / 4 exhaustive replay, 5 state-space, 6 reduced alphabet + random walks (thorough); values are scalars and one-key objects; trusted: TLC, the harness's encoding of observations.",
